@@ -16,6 +16,7 @@ CONSTANTS Streams, W0, C0, MF0, DataSizes, PadSizes, Incs, InitWins, MaxFrames,
           BugPadCredit,   \* TRUE: model relay.go:496 (credit payload only)
           EncodeAtEnqueue, \* TRUE: header blocks are HPACK-encoded when queued (as the code did), not when written
           BugZeroCostHeld, \* TRUE: relay.go:562 as found - a frame that is not flow-controlled is held back while a window is negative
+          DropOnClose,     \* TRUE: as found - when the sender's connection ends, what the relay still holds for the receiver is dropped
           SplitOnlyAtEnqueue \* TRUE: as found - DATA is cut to the receiver's max frame size when queued and never again;
                              \* FALSE: the writer cuts a frame that has waited to the limit in force when it is written
 
@@ -25,13 +26,14 @@ VARIABLES q, sw, bufs, cw, iw, mf, out, cont,      \* relay (flowMu-protected + 
           aFC, aFCc, aCred, aCredC,                \* A's ledger (ghost)
           sentLog, dlvLog, nSend, nCtl,
           hcount, encOrder, dlvOrder,              \* ghost: header blocks in the order encoded / delivered
-          pings, goneAway                          \* connection-level frames: PINGs sent and not yet seen by B; GOAWAY sent / seen
+          pings, goneAway,                         \* connection-level frames: PINGs sent and not yet seen by B; GOAWAY sent / seen
+          aClosed                                  \* the sender has ended its side of the connection (EOF at the relay's reader)
 
 rel   == <<q, sw, bufs, cw, out>>
 ledg  == <<gS, gC, bad, badMF>>
 aled  == <<aFC, aFCc, aCred, aCredC>>
 hp    == <<hcount, encOrder, dlvOrder>>
-conn  == <<pings, goneAway>>
+conn  == <<pings, goneAway, aClosed>>
 vars  == <<rel, iw, mf, cont, ctl, ledg, aled, sentLog, dlvLog, nSend, nCtl, hp, conn>>
 
 NoCont == [s |-> 0, es |-> FALSE]
@@ -45,7 +47,7 @@ Init ==
   /\ sentLog = [s \in Streams |-> <<>>] /\ dlvLog = [s \in Streams |-> <<>>]
   /\ nSend = 0 /\ nCtl = 0
   /\ hcount = 0 /\ encOrder = <<>> /\ dlvOrder = <<>>
-  /\ pings = {} /\ goneAway = "no"
+  /\ pings = {} /\ goneAway = "no" /\ aClosed = FALSE
 
 \* relay.go:483 outputBuffer(): created on first use with the *current* initial window
 Buf(s) == IF s \in bufs THEN sw[s] ELSE iw
@@ -178,14 +180,22 @@ ASendPrio(s) ==
 ASendPing(d) ==
   /\ nSend < MaxSend /\ cont.s = 0 /\ nSend' = nSend + 1 /\ d \notin pings /\ goneAway = "no"
   /\ pings' = pings \cup {d}
-  /\ UNCHANGED <<rel, iw, mf, cont, ctl, ledg, aled, sentLog, dlvLog, nCtl, hp, goneAway>>
+  /\ UNCHANGED <<rel, iw, mf, cont, ctl, ledg, aled, sentLog, dlvLog, nCtl, hp, goneAway, aClosed>>
 BRecvPing(d) == /\ d \in pings /\ pings' = pings \ {d}
-                /\ UNCHANGED <<rel, iw, mf, cont, ctl, ledg, aled, sentLog, dlvLog, nSend, nCtl, hp, goneAway>>
+                /\ UNCHANGED <<rel, iw, mf, cont, ctl, ledg, aled, sentLog, dlvLog, nSend, nCtl, hp, goneAway, aClosed>>
 ASendGoAway ==                       \* the sender's last frame
-  /\ cont.s = 0 /\ goneAway = "no" /\ goneAway' = "sent" /\ nSend' = MaxSend
-  /\ UNCHANGED <<rel, iw, mf, cont, ctl, ledg, aled, sentLog, dlvLog, nCtl, hp, pings>>
+  /\ cont.s = 0 /\ goneAway = "no" /\ ~aClosed /\ goneAway' = "sent" /\ nSend' = MaxSend
+  /\ UNCHANGED <<rel, iw, mf, cont, ctl, ledg, aled, sentLog, dlvLog, nCtl, hp, pings, aClosed>>
 BRecvGoAway == /\ goneAway = "sent" /\ goneAway' = "seen"
-               /\ UNCHANGED <<rel, iw, mf, cont, ctl, ledg, aled, sentLog, dlvLog, nSend, nCtl, hp, pings>>
+               /\ UNCHANGED <<rel, iw, mf, cont, ctl, ledg, aled, sentLog, dlvLog, nSend, nCtl, hp, pings, aClosed>>
+
+\* the sender ends its side of the connection (relayFrames: ReadFrame returns io.EOF): nothing more is read from it, but
+\* what it has sent is still owed to the receiver - queued frames wait for the receiver's windows as before and the
+\* writer keeps delivering
+ASendClose ==
+  /\ cont.s = 0 /\ ~aClosed /\ aClosed' = TRUE /\ nSend' = MaxSend
+  /\ IF DropOnClose THEN q' = [s \in Streams |-> <<>>] /\ out' = <<>> ELSE UNCHANGED <<q, out>>
+  /\ UNCHANGED <<sw, bufs, cw, iw, mf, cont, ctl, ledg, aled, sentLog, dlvLog, nCtl, hp, pings, goneAway>>
 
 (* ---- writer goroutine: output channel -> B (relay.go:165-184) ---- *)
 \* what the writer puts on the wire next: a DATA frame that has waited is cut to the limit now in force
@@ -257,7 +267,7 @@ Next ==
   \/ \E s \in Streams, p \in Promised : ASendPush(s, p)
   \/ \E s \in Streams : ASendPrio(s)
   \/ \E d \in Pings : ASendPing(d) \/ BRecvPing(d)
-  \/ ASendGoAway \/ BRecvGoAway
+  \/ ASendGoAway \/ BRecvGoAway \/ ASendClose
   \/ WriterSend
   \/ \E s \in Streams \cup {0}, i \in Incs : BCtl([t |-> "WU", s |-> s, v |-> i])
   \/ \E v \in InitWins : BCtl([t |-> "SI", s |-> 0, v |-> v])
@@ -272,6 +282,10 @@ WithinMaxFrame   == ~badMF                     \* C09: frame size limit respecte
 CreditReturned   == aCredC = aFCc /\ \A s \in Streams : aCred[s] = aFC[s]      \* C09
 NoEligibleQueued ==                            \* C09/C10: nothing that fits stays queued
   \A s \in Streams : q[s] # <<>> => Blocked(Head(q[s]), Buf(s), cw)
+\* C10: what the sender has emitted on a stream is delivered, on its way to the receiver or queued, in order - nothing is
+\* lost inside the relay (an open header block is in neither place yet)
+Pending(s) == SelectSeq(out, LAMBDA f : f.s = s) \o q[s]
+Conserved        == \A s \in Streams : cont.s # s => Deliver(Pending(s), dlvLog)[s] = sentLog[s]
 LedgerAgrees     == gC = cw /\ \A s \in bufs : gS[s] = sw[s]     \* relay windows = B's ledger
 \* C10: the receiver decodes header blocks in the order the relay encoded them (HPACK state stays in step)
 HpackInOrder     == \A i \in 1..Len(dlvOrder) : i <= Len(encOrder) /\ dlvOrder[i] = encOrder[i]
